@@ -291,6 +291,11 @@ class Engine:
         return self.field_classes.get(field, ()) if hasattr(self, "field_classes") else ()
 
     def write_field(self, st, ref, field, val):
+        for c in self.classes_of(st, ref):       # protobuf oneof: remember which member was set last (ghost)
+            fd = getattr(getattr(c, "DESCRIPTOR", None), "fields_by_name", {}).get(field) \
+                if hasattr(c, "DESCRIPTOR") else None
+            if fd is not None and fd.containing_oneof is not None:
+                st.ghost[("oneof", ref.z.get_id(), fd.containing_oneof.name)] = field
         field = self.field_key(st, ref, field)
         kind = st.heap.schema.get(field)
         if kind is None:
